@@ -236,8 +236,12 @@ func (gs GenesisState) ValidateUndelegations() error {
 		}
 		return nil
 	}
+	// one transaction that undelegates from several operators creates one record per
+	// operator with the same TxHash; records are identified by their record key.
 	seenFieldValueFunc := func(undelegation UndelegationRecord) (string, struct{}) {
-		return undelegation.TxHash, struct{}{}
+		return string(GetUndelegationRecordKey(
+			undelegation.BlockNumber, undelegation.LzTxNonce, undelegation.TxHash, undelegation.OperatorAddr,
+		)), struct{}{}
 	}
 	_, err := utils.CommonValidation(gs.Undelegations, seenFieldValueFunc, validationFunc)
 	if err != nil {
